@@ -72,3 +72,8 @@ native('C25.canonical', ['C25'], 'bounded', 'about 50 boundary JSON values (inte
        'crates/air-lib/interpreter-data/src/cid_store.rs', 'cid_canonical.rs', 'verif_native_cid_canonical::content_ids_are_canonical',
        what='real hashes: the id of a JValue equals the id of the same serde_json value and of its canonical text; key insertion order is irrelevant; '
             'verify_value(cid(v), w) is Ok exactly when v == w (the serialisation/digest functions are external in the Verus unit cid_verify)')
+
+native('C01.parse_total', ['C01'], 'bounded',
+       '11 seed scripts covering every instruction and argument form; at every char position: deletion, truncation, and replacement / insertion of each of 26 hostile chars (multi-byte letters and digits, NUL, quotes, brackets, sigils); thorough: plus a second hostile char three positions further',
+       'aquavm-air-parser', 'crates/air-lib/air-parser/src/lib.rs', 'parse_total.rs', 'verif_native_parse_total::parse_never_panics',
+       what='air_parser::parse (AIR lexer, lambda lexer and parser, generated LALR driver, validator) returns on every mutated script: Ok or Err, never a panic (bounded stand-in for the part of C01 that says script parsing is total; found F19)')
